@@ -38,6 +38,9 @@ def _group(job):
     uf, ub, wd, rd = c8
     out = {"job": [n, s, d, c8, mode], "viol": [], "status": "ok", "disk_used": False}
     den = 8
+    style = None
+    if ":" in mode:                      # "dp:ci": the constructor call written another way (configs.STYLES)
+        mode, style = mode.split(":")
     if "/" in mode:                      # "dp/10": numerators over another denominator (decimal / rescaled costs)
         mode, den = mode.split("/")
         den = int(den)
@@ -59,6 +62,8 @@ def _group(job):
     for k, cfg in cfgs.items():
         if den != 8:
             cfg["den"] = den
+        if style:
+            cfg["style"] = style
         cst, err, r = _measure(cfg)
         if err == "inconclusive":
             out["status"] = "inconclusive"
@@ -167,7 +172,7 @@ def _gen(job):
 def check_witness(data, show=False):
     g = list(data["witness"]["group"])
     if "/" not in g[4] and max(g[3]) < 10 ** 6:
-        g[4] = "dp" if g[0] > 10 else "search"
+        g[4] = ("dp" if g[0] > 10 else "search") + (":" + g[4].split(":")[1] if ":" in g[4] else "")
     out = _group(tuple(g))
     if "oracle_mismatch" in out:
         R.harness_error("oracles disagree on replay: %s" % out["oracle_mismatch"])
@@ -219,6 +224,15 @@ def run(prop, args):
     gridx = [(n, s_, d, c8, "dp") for n in (4, 9, 16, 30, 48) for s_ in (1, 2, 3) for d in (0, 1, 2)
              for c8 in ([1, 1 << 30, 16, 16], [1 << 30, 1, 16, 16], [8, 8, 1 << 30, 1], [8, 8, 1, 1 << 30], [1 << 20, 8, 1 << 24, 1 << 22])]
     jobs += gridx
+    # the same cost vector with its integral components passed as Python ints (uf=1, ub=1 are the
+    # signature defaults: int step costs next to fractional ones are what a user writes), as
+    # numpy.float64, by keyword, with defaults omitted: the parameters are equal, so is the optimum
+    NCI = 22 if tier == "quick" else 48
+    gridci = [(n, s_, d, c8, "dp:ci") for n in range(2, NCI + 1) for s_ in (1, 2) for d in (0, 1, 2)
+              for c8 in ([2, 8, 0, 8], [4, 8, 16, 16], [12, 8, 16, 8], [8, 4, 16, 16], [8, 12, 4, 16], [8, 8, 4, 12], [8, 8, 16, 20], [16, 8, 12, 8], [6, 16, 8, 24])]
+    gridci += [(n, s_, d, c8, "dp:" + st_) for n in (3, 4, 7, 12, 19) for s_ in (1, 2) for d in (0, 2) for st_ in ("npf", "kw", "dflt")
+               for c8 in ([8, 8, 16, 16], [4, 8, 16, 16], [8, 12, 16, 16], [8, 8, 4, 16], [8, 8, 16, 12])]
+    jobs += gridci
     LT = 100 if tier == "quick" else 260
     scan_c8 = SEARCH_C8 + [[8, 8, 32, 32], [8, 8, 64, 64], [12, 8, 188, 45], [4, 8, 64, 8], [8, 4, 8, 64], [16, 16, 16, 64]]
     scan = R.pmap(_table_scan, [(sr, 4, c8, LT) for sr in (1, 2, 3) for c8 in scan_c8], chunksize=1)
@@ -243,7 +257,8 @@ def run(prop, args):
                       {"box": "expensive disk: n in 8..%d, RAM units 1..3, 5 cost vectors with (wd+rd)/uf in 12.5..64" % NE, "cases": len(grid2), "exhaustive": True},
                       {"box": "one-decimal (non-dyadic) cost vectors: n in 2..%d, RAM 1..3, DISK 0..2, 5 vectors, exact comparison in tenths" % ND10, "cases": len(grid10), "exhaustive": True},
                       {"box": "cost units rescaled by 2**40 and 2**-40: 6 n x 2 RAM x 2 DISK x 3 vectors", "cases": len(gridsc), "exhaustive": True},
-                      {"box": "extreme cost ratios (2**30 between two of the four costs): 5 n x 3 RAM x 3 DISK x 5 vectors", "cases": len(gridx), "exhaustive": True}]
+                      {"box": "extreme cost ratios (2**30 between two of the four costs): 5 n x 3 RAM x 3 DISK x 5 vectors", "cases": len(gridx), "exhaustive": True},
+                      {"box": "call styles: integral cost components as Python ints next to fractional ones (n<=%d, RAM 1..2, DISK 0..2, 9 vectors); costs as numpy.float64, all-keyword and defaults-omitted calls (5 n x 2 x 2 x 5 vectors)" % NCI, "cases": len(gridci), "exhaustive": True}]
     rep.extra["oracle_selfcheck"] = {"search_vs_dp_groups": nsearch}
     for out in res:
         n, s, d, c8, mode = out["job"]
@@ -275,7 +290,11 @@ def run(prop, args):
             return any(p == pred for p, _, _ in _group(tuple(g))["viol"])
         n, s, d, c8, mode = w["group"]
         cur = {"cls": "HRevolve", "n": n, "s": s, "d": d, "c8": list(c8), "passes": 1}
-        dmode = "dp" + ("/" + mode.split("/")[1] if "/" in mode else "")
+        sty = ""
+        if ":" in mode:
+            mode, sty = mode.split(":")
+            sty = ":" + sty
+        dmode = "dp" + ("/" + mode.split("/")[1] if "/" in mode else "") + sty
         if "/" in mode or max(c8) > 10 ** 6:
             # decimal / rescaled units: shrink n and the unit counts only, keep the cost vector
             def fails(c):
